@@ -261,7 +261,11 @@ func VerifC02_type2_any_salt_length() {
 	salt := vBytesC("salt", 0, 0)
 	n := lens[vSplit(vInt("salt_length", 0, len(lens)-1), 0, len(lens)-1)]
 	salt = vBytesC("salt_bytes", n, n)
-	st, err := NewBasicPublicClient().CreateTokenRequestWithBlind(vBytesC("challenge", 0, 1), vBytes("nonce", 32, 32), issuer.TokenKeyID(), issuer.TokenKey(), vBytes("blind", 256, 256), salt)
+	// a blind that is a unit below the modulus natively too: non-zero, top bit clear
+	blind := vBytes("blind", 256, 256)
+	blind[0] &= 0x7f
+	blind[255] |= 1
+	st, err := NewBasicPublicClient().CreateTokenRequestWithBlind(vBytesC("challenge", 0, 1), vBytes("nonce", 32, 32), issuer.TokenKeyID(), issuer.TokenKey(), blind, salt)
 	if err != nil {
 		vReach("refused")
 		return
